@@ -41,7 +41,9 @@ theorem sendFromModule_frame {s s1 : St} {q q1 : Seq} {amt : Nat} {to : Addr}
   · cases e
   · split at e
     · cases e
-    · injection e with e; injection e with e1 _; subst e1; exact ⟨rfl, rfl, rfl, rfl⟩
+    · split at e
+      · cases e
+      · injection e with e; injection e with e1 _; subst e1; exact ⟨rfl, rfl, rfl, rfl⟩
 
 theorem burn_frame {s s1 : St} {q q1 : Seq} {amt : Nat} (e : burn s q amt = .ok (s1, q1)) : Frame s s1 := by
   unfold burn at e; split at e
